@@ -51,6 +51,37 @@ class C14(Check):
     def q1(self, init) -> None:
         fn = init.func("make_protocol")
         q = "make_protocol"
+        # first choice: evaluate the function abstractly on three symbolic steps (seqeval.py) - whatever way the fold is written
+        try:
+            from ..seqeval import protocol_table
+
+            pairs, expected, rows = protocol_table(init, fn)
+        except AnalysisError as e:
+            self.analysed["make_protocol_evaluated_abstractly"] = f"no ({e}); structural rules used"
+        else:
+            import sympy
+
+            self.analysed["make_protocol_evaluated_abstractly"] = "yes: " + ", ".join(f"{k} -> {v}" for k, v in pairs)
+            anchor = next((s_ for s_ in strip_docstring(fn.body) if isinstance(s_, (ast.For, ast.Assign))), fn)
+            keys_ok = len(pairs) == len(expected) and all(hasattr(k, "is_number") and sympy.simplify(k - ek) == 0 for (k, _), (ek, _) in zip(pairs, expected))
+            vals_ok = len(pairs) == len(expected) and all(v == ev_ for (_, v), (_, ev_) in zip(pairs, expected))
+            got = ", ".join(f"{k}: {v}" for k, v in pairs)
+            if len(pairs) != len(expected):
+                self.violated("Q1", INIT, q, "starts-at-zero-unfiltered", anchor, f"three steps (d1,p1),(d2,p2),(d3,p3) give {len(pairs)} rows: {{{got}}}",
+                              witness="make_protocol([(1,{'k':1}),(2,{'k':2}),(3,{'k':3})]) does not have three rows")
+            else:
+                self.holds("Q1", INIT, q, "starts-at-zero-unfiltered", anchor, "three symbolic steps give three rows")
+            if keys_ok and rows:
+                self.holds("Q1", INIT, q, "accumulate-then-store", anchor, f"abstract evaluation on three symbolic steps: {{{got}}}, one row per step")
+            else:
+                self.violated("Q1", INIT, q, "accumulate-then-store", anchor,
+                              f"for steps (d1,p1),(d2,p2),(d3,p3) the table is {{{got}}}" + ("" if rows else " with one COLUMN per step") + ": a step is not keyed by the time accumulated including that step",
+                              witness="make_protocol([(1,{'k':1}),(2,{'k':2})]) has index [0s,1s] instead of [1s,3s]: every step's values govern the wrong interval")
+            if vals_ok:
+                self.holds("Q1", INIT, q, "stores-step-values", anchor, "each row holds its own step's values")
+            else:
+                self.violated("Q1", INIT, q, "stores-step-values", anchor, f"for steps (d1,p1),(d2,p2),(d3,p3) the table is {{{got}}}: a row does not hold its own step's values")
+            return
         loops = [s for s in strip_docstring(fn.body) if isinstance(s, ast.For)]
         if not loops and self.q1_fold(init, fn):
             return
